@@ -57,6 +57,9 @@ def cases(ctx: Ctx):
     # two @common lines before the first reaction; the rates use a parameter of each
     (d / "k4.krome").write_text("@common:user_crflux,user_Av\n@common:user_dust2gas\n@format:idx,R,P,P,rate\n1,H2,H,H,1.0d-17*user_crflux*exp(-1.0d0*user_Av)\n"
                                 "2,H,H,,3.0d-17*user_dust2gas\n")
+    # user variables written in terms of the reader's own temperature shortcuts (invT, T32, Te, sqrTgas), as KROME networks write them
+    (d / "k5.krome").write_text("@var:kx=2.0d0*invT\n@var:ky=kx*T32+sqrTgas\n@format:idx,R,R,P,P,rate\n1,H,H,H2,,1.0d-10*kx*T32\n"
+                                "@var:kz=ky*invTe\n@format:idx,R,P,P,rate\n2,H2,H,H,kz*1.0d-17\n")
     # species whose index macros are long: a three-reactant term is one blank-free token wider than the line
     longr = [rec(["CH3CH2CH2CH2OH", "CH3CH2CH2CH2OH2+", "HCOOCH2CH2CH3"], ["CH3CH2CH2CH2O", "H2"], 100), rec(["CH3CH2CH2CH2O", "H"], ["CH3CH2CH2CH2OH"], 100, idx=2)]
     (d / "long.naunet").write_text("\n".join(encoders.native(x) for x in longr) + "\n")
@@ -101,6 +104,7 @@ def cases(ctx: Ctx):
         ("uclchem H2+ without H2", dict(filelist=str(d / "h2ion.ucl"), fileformats="uclchem"), "cvode", "dense"),
         ("uclchem #H2 without H2", dict(filelist=str(d / "h2ice.ucl"), fileformats="uclchem", grain_model="rr07x"), "cvode", "sparse"),
         ("krome two @common lines", dict(filelist=str(d / "k4.krome"), fileformats="krome"), "odeint", "rosenbrock4"),
+        ("krome user variables built on the temperature shortcuts", dict(filelist=str(d / "k5.krome"), fileformats="krome"), "cvode", "dense"),
         ("long identifiers", dict(filelist=str(d / "long.naunet"), fileformats="naunet"), "cvode", "sparse"),
         ("uclchem H2 late", dict(filelist=str(d / "h2late.ucl"), fileformats="uclchem"), "cvode", "sparse"),
     ]
